@@ -117,7 +117,7 @@ def nc_bytes(marker):
 
 ROOT_NAMES = ["data", "r.nc", "pub", "d", "catalog.xml", "x.csv"]
 INNER_DIRS = ["sub", "a", "d.nc", "data", "10", "9", "catalog.xml", "b.d", "deep"]
-INNER_FILES = ["t.csv", "T.CSV", "n.nc", "u.txt", "noext", ".hid", "x.csv.dds", "catalog.xml", "f9.txt", "f10.txt",
+INNER_FILES = ["t.csv", "T.CSV", "n.nc", "u.txt", "noext", ".hid", ".csv", "x.csv.dds", "catalog.xml", "f9.txt", "f10.txt",
                "f010.txt", "t.csv.json", "m.cdf", "w.nc4", "q.csv.txt", "a.", "mycatalog.xml", "z.html"]
 
 
@@ -144,7 +144,8 @@ class Layout:
         # inside
         self.populate(rng, self.root, depth=0)
         # always at least one supported file and one plain file and one directory at top level
-        for name in ("t.csv", "u.txt"):
+        # (".csv": a hidden file whose whole name is a supported extension; "noext": no extension at all)
+        for name in ("t.csv", "u.txt", ".csv", "noext"):
             p = os.path.join(self.root, name)
             if not os.path.exists(p):
                 self.put(p)
@@ -203,6 +204,7 @@ class Layout:
         for f in files_top[:4]:
             derived.append(f + rng.choice([".dds", ".das", ".dods", ".ver", ".asc"]))
         derived += ["t.csv.dds", "u.txt.dds", "sub.dds", "t.csv.nope", "mycatalog.xml", "%2E", "..%2f" + self.siblings[0],
+                    ".csv.dds", "noext.dds", ".hid.dds", "T.CSV.dds",
                     "%2e%2e%2f" + self.siblings[1], "t.csv.", "nope", "s.csv.dds", self.siblings[1], self.siblings[-1]]
         pool = list(dict.fromkeys(top + nested + derived))
         rng.shuffle(pool)
